@@ -12,10 +12,13 @@ tie   : K-sym  the model's Symbols (refs, loads — ordered — stores, level) o
 oracle: extracted SpecStmt (documented scoping rules) == the real engine; alpha-renaming
         metamorphic runs; hypothesis probes (NFKC-equal identifiers, helper-like names).
 """
+import ast
 import json
 
 from . import lib
+from . import scope_cfg as C
 from . import scope_gen as G
+from . import scope_ref as R
 
 RULE = ("statement trees of size <= N (12 quick / 25 thorough) over the name pool {a, b, c, n} + macro names {m, k}, "
         "half of them restricted to the proved core fragment, each rendered on 3 data assignments (int / str / list "
@@ -23,7 +26,12 @@ RULE = ("statement trees of size <= N (12 quick / 25 thorough) over the name poo
         "without error, has at least one scoping construct (for / with / set block / filter / macro / call) and at "
         "least one assignment; plus chains of 3-5 nested scoping constructs whose own statements use 1-2 name subsets "
         "(pass-through scopes). Probes: NFKC-equal identifier pairs, helper-like and keyword-like identifiers, "
-        "alpha-renamed copies.")
+        "alpha-renamed copies.  Round 7: statement trees over the EXTENDED syntax (tuple targets of for / set, "
+        "recursive loops with loop(...), break / continue, filtered block sets, loop.index0/first/last/length/revindex) "
+        "judged by the python reference O2 on render arguments of many kinds (bool, float, Markup, a str subclass "
+        "overriding __str__, tuple, dict, generator, iterator, __iter__-only and __getitem__-only objects, an object "
+        "whose attribute protocol raises); every sampled program is also rendered under one of 15 environment "
+        "configurations, and ONE environment is driven through sequences of operations compared with fresh ones.")
 
 SIG_RBW = "C03:inner-scope-read-of-context-variable-assigned-later-by-enclosing-frame"
 SIG_NFKC = "C03:nfkc-equal-identifiers-alias"
@@ -132,6 +140,13 @@ class Runner:
             f, s, rs, guards = G.parse_run(line, N)
             real = G.real_render(self.env, src, d)
             case = dict(case0, data=d)
+            # ---- O2 (python reference for the extended syntax) == extracted SpecStmt on the common AST
+            o2 = R.Ref(d).render(p)
+            if o2[0] != "skip" and "Fuel" not in (o2[-1], s[-1]):
+                ctx.count("o2_vs_spec")
+                if o2 != s:
+                    self.o2_mismatch = getattr(self, "o2_mismatch", [])
+                    self.o2_mismatch.append((len(src), case, o2, s))
             nontriv = real[0] == "ok" and (kinds & SCOPING) and (kinds & ASSIGN)
             ctx.case(sample={"src": src, "data": d, "render": real[1][:60] if real[0] == "ok" else real[1],
                              "exported": [list(x) for x in real[2]] if real[0] == "ok" else []}
@@ -195,7 +210,9 @@ class Runner:
             ctx.model_mismatch("K-sym Symbols of a frame", case, msym, rsym, of)
         for _, case, f, real, of, guards in sorted(getattr(self, "run_mismatch", []), key=lambda t: t[0])[:8]:
             ctx.model_mismatch("K-run FrameExec vs Template.render", case, repr(f), repr(real), of)
-        self.sym_mismatch, self.run_mismatch = [], []
+        for _, case, o2, s in sorted(getattr(self, "o2_mismatch", []), key=lambda t: t[0])[:3]:
+            ctx.model_mismatch("O2 python reference vs extracted SpecStmt (common AST)", case, repr(o2), repr(s), None)
+        self.sym_mismatch, self.run_mismatch, self.o2_mismatch = [], [], []
 
 
 def setblock_filter_ksym(run_, ctx, rng):
@@ -235,6 +252,173 @@ def setblock_filter_ksym(run_, ctx, rng):
             ctx.validated()
     for _, src, m, r in sorted(bad)[:3]:
         ctx.model_mismatch("K-sym Symbols of a filtered block set", {"src": src, "kind": "setblock-filter"}, m, r, None)
+
+
+NEW_KINDS = {"break", "continue", "loopcall"}
+
+
+def ext_features(p, acc=None):
+    """which round-7 constructs a program uses"""
+    acc = set() if acc is None else acc
+    for s in p:
+        k = s[0]
+        if k in NEW_KINDS:
+            acc.add(k)
+        if k == "for":
+            if not isinstance(s[1], str):
+                acc.add("tuple-for")
+            if len(s) > 6 and s[6]:
+                acc.add("recursive")
+            ext_features(s[4], acc), ext_features(s[5], acc)
+        elif k == "set" and not isinstance(s[1], str):
+            acc.add("tuple-set")
+        elif k == "setb":
+            if len(s) > 3 and s[3] is not None:
+                acc.add("setb-filter")
+            ext_features(s[2], acc)
+        elif k == "if":
+            ext_features(s[2], acc), ext_features(s[3], acc), ext_features(s[4], acc)
+        elif k in ("with", "filt"):
+            if k == "filt" and not isinstance(s[1], str):
+                acc.add("filter-args")
+            ext_features(s[2], acc)
+        elif k == "macro":
+            ext_features(s[3], acc)
+        elif k == "callb":
+            acc.add("callb")
+            ext_features(s[4], acc)
+        elif k in ("nsnew", "seta"):
+            acc.add("namespace")
+        elif k == "callo":
+            acc.add("call")
+    return acc
+
+
+def ext_env(jinja2):
+    env = G.make_env(jinja2)
+    env.add_extension("jinja2.ext.loopcontrols")
+    return env
+
+
+def ext_judge(ctx, env, p, ds, kind="ext"):
+    """oracle O2 on one extended program: engine == reference (text, error class, exported variables)"""
+    src = R.p2_src(p)
+    mk = lambda: R.make_data(ds)      # noqa
+    want = R.Ref(mk()).render(p)
+    if want[0] == "skip":
+        ctx.count("ext_skipped_budget")
+        return None, src
+    real = R.real_render2(env, src, mk)
+    feats = ext_features(p)
+    kinds = {v[0] if v[0] != "plain" else type(v[1]).__name__ for v in ds.values()}
+    ctx.case(key=("ext", src, repr(sorted(ds.items()))) if real[0] == "ok" and feats else None)
+    for f in feats:
+        ctx.count("ext_uses_" + f)
+    for k in kinds:
+        ctx.count("ext_value_" + k)
+    ctx.count("ext_" + (real[0] if real[0] != "err" else real[1]))
+    if R.norm_obs(real) != R.norm_obs(want) and R.stable(ds) != ds:
+        # the text of a real generator carries its address (and a loop can walk over that text): judge this
+        # program on single-use iterators with a stable text form instead
+        return ext_judge(ctx, env, p, R.stable(ds), kind)
+    if R.norm_obs(real) != R.norm_obs(want):
+        ctx.reject({"prog_repr": repr(p), "dspec_repr": repr(ds), "src": src, "kind": kind},
+                   f"engine gives {R.norm_obs(real)!r}, the scoping rules (reference O2) give {R.norm_obs(want)!r}", None)
+    else:
+        ctx.validated()
+    return real, src
+
+
+def extended_stream(run_, ctx, rng, keep):
+    env = ext_env(run_.jinja2)
+    n = ctx.size(1200, 10000)
+    for i in range(n):
+        g = R.EGen(rng, size=rng.randint(3, ctx.size(14, 22)))
+        p = g.program()
+        avoid = R.unsafe_names(p)
+        m = {}
+        if i % 4 == 3:
+            # the same judgement on a consistently renamed copy (fresh, Unicode, keyword-like, helper-like names)
+            m = alpha_maps(rng, ["a", "b", "c", "n", "m", "k"])[rng.randrange(2)]
+            p = R.rename2(p, m)
+            ctx.count("ext_renamed")
+        for _ in range(2):
+            ds = {m.get(x, x): v for x, v in g.dspec(avoid).items()}
+            real, src = ext_judge(ctx, env, p, ds)
+            if real is not None and len(keep) < 4000:
+                keep.append((p, ds, src, real))
+
+
+def config_stream(run_, ctx, rng, keep):
+    """every kept (program, data) rendered under one sampled configuration (round-robin over all of them):
+    the observation must be the default configuration's"""
+    cf = C.Configs(run_.jinja2)
+    run_.ext_env = ext_env(run_.jinja2)
+    ctx.extra["configurations"] = {"explored": C.NAMES, "excluded": C.EXCLUDED}
+    n = ctx.size(750, 6000)
+    for i in range(min(n, len(keep))):
+        p, ds, src, base = keep[rng.randrange(len(keep))]
+        name = C.NAMES[i % len(C.NAMES)]
+        want = C.comparable(name, R.norm_obs(base), src)
+        if want is None:
+            ctx.count("config_not_comparable_" + name)
+            continue
+        mk = lambda: R.make_data(ds)      # noqa
+        got = R.norm_obs(cf.render(name, src, mk))
+        if got[0] == "skip":
+            ctx.count("config_skip_" + name + "_" + got[1])
+            continue
+        if got[0] == "compile" and want[0] == "compile":
+            got = want
+        if got != want and R.stable(ds) != ds:
+            ds = R.stable(ds)       # addresses in the text of real generators: compare on stable stand-ins
+            want = C.comparable(name, R.norm_obs(R.real_render2(run_.ext_env, src, mk)), src)
+            got = R.norm_obs(cf.render(name, src, mk)) if want is not None else None
+        ctx.case()
+        ctx.count("config_" + name)
+        if got != want:
+            ctx.reject({"prog_repr": repr(p), "dspec_repr": repr(ds), "src": src, "kind": "config", "config": name},
+                       f"configuration {name} changes the result: default {want!r}, {name} {got!r}", None)
+        else:
+            ctx.validated()
+
+
+def config_one(run_, ctx, p, ds, src, base, name):
+    cf = C.Configs(run_.jinja2)
+    want = C.comparable(name, R.norm_obs(base), src)
+    got = R.norm_obs(cf.render(name, src, lambda: R.make_data(ds)))
+    print("config  :", name, got)
+    if want is not None and got[0] != "skip" and got != want:
+        ctx.reject({"prog_repr": repr(p), "dspec_repr": repr(ds), "src": src, "kind": "config", "config": name},
+                   f"configuration {name} changes the result: default {want!r}, {name} {got!r}", None)
+
+
+def history_stream(run_, ctx, rng, keep):
+    """state that survives a call (template cache, cached .module, globals, the Template object itself): ONE
+    environment for the whole stream, sequences of operations, each compared with a fresh environment"""
+    env = ext_env(run_.jinja2)
+    fresh = lambda: ext_env(run_.jinja2)      # noqa
+    for i in range(ctx.size(100, 800)):
+        items = []
+        for _ in range(rng.randint(1, 3)):
+            p, ds, src, base = keep[rng.randrange(len(keep))]
+            g = R.EGen(rng)
+            alt, ds = R.stable(g.dspec(R.unsafe_names(p))), R.stable(ds)
+            if R.Ref(R.make_data(alt)).render(p)[0] == "skip":
+                alt = ds        # the text explodes on that data: not handed to the engine
+            items.append((src, [lambda ds=ds: R.make_data(ds), lambda alt=alt: R.make_data(alt)]))
+        for op, src, got, want in C.history(run_.jinja2, env, rng, items, fresh):
+            ctx.case()
+            ctx.count("history_" + op)
+            if R.norm_obs(got) != R.norm_obs(want) if got[0] == "ok" and len(got) == 3 else _n(got) != _n(want):
+                ctx.reject({"src": src, "kind": "history", "op": op, "others": [s for s, _ in items]},
+                           f"after other operations on the same environment, {op} gives {got!r}; a fresh environment gives {want!r}", None)
+            else:
+                ctx.validated()
+
+
+def _n(o):
+    return tuple(R._addr.sub("", x) if isinstance(x, str) else x for x in o)
 
 
 def alpha_maps(rng, names):
@@ -336,6 +520,15 @@ def run(ctx):
     # alpha-renaming metamorphic runs
     for p, datas in progs[:ctx.size(400, 2000)]:
         alpha_check(run_, ctx, p, datas[0], rng)
+    # round 7: extended syntax / value kinds judged by O2; configurations; histories
+    keep = []
+    for p, datas in progs[:ctx.size(400, 3000)]:
+        ds = {k: ("plain", v) for k, v in datas[0].items()}
+        src = R.p2_src(p)
+        keep.append((p, ds, src, R.real_render2(run_.env, src, lambda: R.make_data(ds))))
+    extended_stream(run_, ctx, rng, keep)
+    config_stream(run_, ctx, rng, keep)
+    history_stream(run_, ctx, rng, keep)
 
 
 def replay(ctx, data):
@@ -347,6 +540,17 @@ def replay(ctx, data):
         if rsym == "compile:AssertionError":
             ctx.reject(case, "compiling the template raises an internal AssertionError", None)
         return
+    if data.get("kind") == "failing-input" and isinstance(case, dict) and "prog_repr" in case:
+        run_ = Runner(ctx)
+        p, ds = ast.literal_eval(case["prog_repr"]), ast.literal_eval(case["dspec_repr"])
+        real, src = ext_judge(ctx, ext_env(run_.jinja2), p, ds)
+        print("template:", src, "\ndata    :", ds, "\nengine  :", real, "\nrules   :", R.Ref(R.make_data(ds)).render(p))
+        if case.get("kind") == "config":
+            config_one(run_, ctx, p, ds, src, real, case["config"])
+        return
+    if data.get("kind") == "failing-input" and isinstance(case, dict) and case.get("kind") == "history":
+        print("replay: a history case depends on the whole sequence; re-running the check with the same seed")
+        return run(ctx)
     if data.get("kind") != "failing-input" or not isinstance(case, dict) or "prog" not in case:
         print("replay: this file names a broken theorem / correspondence, not an input:", data.get("broken"))
         return run(ctx)
